@@ -17,6 +17,9 @@ pub struct Pace {
     pub sweep_allocs: Option<usize>,
     /// pacing changed / debt adjusted artificially in this cycle
     pub tainted: bool,
+    /// a destructor of this arena panicked: the leaked block stays counted although the collector
+    /// no longer knows the object, so count-based pacing knowledge is off for the arena's life
+    pub off: bool,
 }
 
 pub struct PaceEntry {
@@ -48,7 +51,7 @@ impl Exec {
 
     pub fn pace_exit(&mut self, a: u8, op: COp, e: PaceEntry, after: Ph, unwound: bool) {
         let ai = a as usize;
-        if unwound {
+        if unwound || self.mon[ai].pace.off {
             self.pace_taint(a);
             return;
         }
@@ -180,6 +183,9 @@ impl Exec {
     /// after every callback: `allocs` allocations were made
     pub fn pace_callback(&mut self, a: u8, allocs: u32, phase_after: Option<Ph>) {
         let ai = a as usize;
+        if self.mon[ai].pace.off {
+            return;
+        }
         if let Some((h, aa)) = self.mon[ai].pace.cycle {
             self.mon[ai].pace.cycle = Some((h, aa + allocs as usize));
         }
